@@ -26,6 +26,10 @@ struct MultiZip(Vec<std::vec::IntoIter<Value>>);
 impl Iterator for MultiZip {
     type Item = Vec<Value>;
     fn next(&mut self) -> Option<Self::Item> {
+        // Without any input array, collecting would yield `Some(vec![])` forever.
+        if self.0.is_empty() {
+            return None;
+        }
         self.0.iter_mut().map(Iterator::next).collect()
     }
 }
